@@ -515,9 +515,15 @@ def r6_registration(rep, ctx, RID="C12.R6"):
     # (5) default unit outside the quantity type must-raise before the store
     store = [st for st in own_statements(fn.node) if isinstance(st, ast.Assign) and isinstance(st.targets[0], ast.Subscript) and "categories_to_quantity_types" in ast.unparse(st.targets[0])]
     ok = False
+    P_DU = ("param", fn.params.index("default_unit"), "default_unit")
     for nid in cfg.nodes("test"):
         e = cfg.ast[nid]
-        if isinstance(e, ast.Compare) and isinstance(e.ops[0], (ast.NotIn, ast.In)) and isinstance(e.left, ast.Name) and e.left.id == "default_unit" and "quantity_units" in ast.unparse(e.comparators[0]):
-            lab = "T" if isinstance(e.ops[0], ast.NotIn) else "F"
-            ok = cfg.must_raise_from([(nid, lab)])
+        if isinstance(e, ast.Compare) and len(e.ops) == 1 and isinstance(e.ops[0], (ast.NotIn, ast.In)):
+            # <the given default unit (possibly its legacy rewrite)> not in <units of the quantity type>
+            lt, rt = res.term(e.left), res.term(e.comparators[0])
+            from_given = any(x == P_DU for a_ in alternatives(lt) for x in walk(a_))
+            in_type_units = any(x[0] == "call" and x[1][0] in ("field", "attr") and (x[1][1] if x[1][0] == "field" else x[1][2]) == "GetUnits" for x in walk(rt))
+            if from_given and in_type_units:
+                lab = "T" if isinstance(e.ops[0], ast.NotIn) else "F"
+                ok = ok or cfg.must_raise_from([(nid, lab)])
     rep.check(ok and bool(store), RID, "AddCategory:default-unit-in-type", "a given default unit that is not a unit of the quantity type must-raise before the category is stored", "a default unit outside the quantity type is accepted", fn=fn)
